@@ -67,13 +67,13 @@ META["C13"] = {
 
 def _m(cat, ref, tech, text, note): return {"category": cat, "design_ref": ref, "technique": tech, "text": text, "note": note}
 META["C09"] = _m("proof", "DESIGN.md section 6, C09",
-    "Coq round-trip theorems for the whole lib0 v1 layer (unbounded: every value satisfying an explicit boolean well-formedness predicate) + byte-level correspondence of the Rust codecs with the Coq codecs on generated and hand-made payloads + implementation round trips in v1 and v2 and Yjs fixtures",
-    "Round trips are universally quantified statements: proved for every varint width, strings, nested Any, id sets, state vectors, snapshots, sticky indexes, awareness updates, every sync message and every block / content kind of updates. The Rust code is tied to the model by decoding the same bytes on both sides and by re-encoding.",
-    "Partial: the v2 column codecs are not modelled (implementation round trips and v1<->v2 cross checks only). Repaired on the pinned tree: JSON content (9a4936a), v2 write_buf (976c4ca), Custom message tag (0a868d8), Skip length (e7abf27).")
+    "Coq round-trip theorems for the whole lib0 v1 layer and for lib0 v2 updates (the four column codecs and the composed nine-column update; unbounded: every value satisfying an explicit boolean well-formedness predicate) + byte-level correspondence of the Rust codecs with the Coq codecs (v1 and v2) on generated and hand-made payloads with ids over the whole 53-bit / u32 width + implementation round trips in v1 and v2 and Yjs fixtures",
+    "Round trips are universally quantified statements: proved for every varint width, strings, nested Any, id sets, state vectors, snapshots, sticky indexes, awareness updates, every sync message, every block / content kind of updates in v1, and in v2 the IntDiffOptRle / UIntOptRle / Rle / string columns and whole updates. The Rust code is tied to the model by decoding the same bytes on both sides and by re-encoding (model bytes = Rust bytes).",
+    "Partial: the v2 forms of state vectors, snapshots, id sets and sticky indexes are covered by implementation round trips only. Repaired on the pinned tree: JSON content (9a4936a), v2 write_buf (976c4ca), Custom message tag (0a868d8), Skip length (e7abf27), v2 clock columns lost differences >= 2^30 (d9039ca, found by the proof), integrate overflowed on clocks >= 2^31 (5fb6db0).")
 META["C10"] = _m("proof", "DESIGN.md section 6, C10",
-    "Coq totality theorems for every v1 decoder (for ALL byte strings: no modelled panic, no exhaustion of fuel = input length + 1, bounded nesting, decoded values satisfy the encoder's precondition) + outcome-class correspondence with the Rust decoders + isolated worker subprocesses with a counting allocator, small stack and time limit for all 22 entry points incl. v2",
+    "Coq totality theorems for every v1 decoder and for the lib0 v2 update decoder (for ALL byte strings: no modelled panic, no exhaustion of fuel, bounded nesting, decoded values satisfy the encoder's precondition) + outcome-class correspondence with the Rust decoders (v1 entry points and Update::decode_v2) + isolated worker subprocesses with a counting allocator, small stack and time limit for all 22 entry points",
     "Totality is a claim about all 256^n inputs; the theorems settle it for the modelled decoders, the correspondence shows the Rust decoders fall into the same outcome class on hundreds of thousands of mutated inputs, and the worker runs observe what no model can (aborts, stack, allocation, time).",
-    "Partial by nature: runtime resources and the v2 decoders are observed, not proved. The pinned tree violated this property at about twenty sites (panics, aborts, multi-GB reservations, stack overflow, UB): repaired in df1cd64, cad7369, 0371611, d350b15.")
+    "Partial by nature: runtime resources are observed, not proved. Known finding: a lib0 v2 update is not bounded by its input (run-length columns: 23 bytes -> 1 000 000 blocks; model witness v2_expansion). The pinned tree violated this property at about twenty sites (panics, aborts, multi-GB reservations, stack overflow, UB): repaired in df1cd64, cad7369, 0371611, d350b15, and RleDecoder::read_u8 (32185c6, found while modelling v2).")
 META["C15"] = _m("proof", "DESIGN.md section 6, C15",
     "Coq: gc as a function on the unit-level document; visible content, lengths, map values and the integrated id set are invariant under gc in every reachable state; the YATA position of later items does not depend on collected contents; gc commutes with integration and delete sets + gc / no-gc twin replicas compared after every delivery, forced gc, rebuild from gc'ed state, mixed-setting exchanges",
     "GC may rewrite only what nobody can read: the theorems show that for the model in every reachable state; the twins check the real collector.",
@@ -91,9 +91,9 @@ META["C14"] = _m("proof", "DESIGN.md section 6, C14",
     "The theorems quantify over all lists and all later insertions / deletions; the harness knows from the hook dump where a deleted anchor used to be.",
     "Anchors re-created by redo (follow_redone) are not modelled.")
 META["C20"] = _m("proof", "DESIGN.md section 6, C20",
-    "Coq theorems: a quotation is the live part of the segment between its anchors, sees later insertions in order, hides deletions + dereference on every replica after every step against the hook dump",
-    "Found and repaired on the pinned tree: start anchor at a tombstone (fb007d9), quotation not materialized when it starts at the end of a block (71ba737), text quotations not sliced at their boundaries (b77dca2).",
-    "Partial: observer notification is only counted, link bookkeeping is not modelled.")
+    "Coq theorems: a quotation is the live part of the segment between its anchors, sees later insertions in order, hides deletions + dereference on every replica after every step against the hook dump + an observer on every quotation on every replica that must be called in every step that changes the ids the quotation shows",
+    "Found and repaired on the pinned tree: start anchor at a tombstone (fb007d9), quotation not materialized when it starts at the end of a block (71ba737), text quotations not sliced at their boundaries (b77dca2), links lost when a quoted block is split (19d2098), elements appended to an unbounded quotation not linked (21e026d).",
+    "Partial: link bookkeeping (linked_by) is not modelled, notification is decided on the implementation only. Known findings: quotations without a lower / upper bound and quotations of an empty range miss notifications (new elements join a quotation only through a registered neighbour).")
 META["C18"] = _m("proof", "DESIGN.md section 6, C18",
     "Coq: awareness as a per-client register (idempotent, order-insensitive on well-formed update sets for remote clients, clock monotone, lower clock never replaces, local state protected); handshake convergence at operation-set level (diff against any stale vector is complete; only the delivered set matters) + real Awareness/Protocol peers under seeded interleavings with concurrent edits and all permutations of awareness updates, model compared after every apply",
     "Order-insensitivity is a statement over all permutations and the handshake over all interleavings; both are proved for the model and exercised on the real peers.",
